@@ -787,8 +787,10 @@ impl Tcb {
             && final(self).outgoing == old(self).outgoing && final(self).timeouts == old(self).timeouts,   //# only_drains_buffer [C01,C17]
         // (C01) reads hand out the buffered bytes exactly once, in order
         r@ + final(self).incoming.text@ == old(self).incoming.text@,   //# delivers_buffer_exactly_once [C01,C02]
-        (old(self).state != State::Closing && old(self).state != State::LastAck && old(self).state != State::TimeWait)
-            ==> r@ == old(self).incoming.text@,   //# delivers_everything_buffered [C01,C02]
+        // (C01, C03) ... in EVERY state: text that was accepted before the connection started closing (e.g. a data segment
+        //       processed together with the peer's FIN in one segment_arrives call) is still handed to the application -
+        //       "every submitted byte is delivered exactly once", "without losing data submitted before a close"
+        r@ == old(self).incoming.text@,   //# delivers_everything_buffered [C01,C02,C03]
 //@ end
 
 //@ item sim/elvis-core/src/protocols/tcp/tcb.rs :: impl Tcb / fn close id=Tcb.close
